@@ -27,6 +27,16 @@ var commonAssumptions = []string{
 }
 
 var props = map[string]propCfg{
+	"C06": {
+		QuickBatches: 8, ThoroughBatches: 64, Parallel: 16, Level: "exploration", Floor: 100,
+		Rule:        "histories generated truth first: a start time T (any of 7 time zones; half of them within +-2 s, a quarter of those within +-2 ms, of a constellation's week rollover), then per participating constellation (random non-empty subset of GPS, GLONASS, Galileo, BeiDou) true UTC observation instants u1 <= u2 <= ... with u1 >= T inside T's constellation week and gaps in {0, 1 ms, seconds, hours, up to 6 d - 1 ms, exactly on/around the next rollover}, spanning 0..many rollovers; each instant is converted to its 30-bit timestamp by pure time arithmetic (no rollover logic in the oracle); constellations and MSM4/MSM7 types are interleaved at random and illegal timestamps (>= 7 d of ms; GLONASS day 7 or >= 24 h of ms) are spliced in anywhere. The frames go through handler.GetMessage on one handler, a third of the histories through the stream handler. Every reported SentAt and StartOfWeek is parsed back and must equal the true instant / true week start; illegal timestamps must come back as errors without disturbing later messages. Non-trivial: >=2 constellations cross a rollover, or an illegal timestamp is followed by valid messages. Distinct by hash of the history.",
+		Assumptions: commonAssumptions,
+	},
+	"C17": {
+		QuickBatches: 8, ThoroughBatches: 64, Parallel: 16, Level: "exploration", Floor: 100,
+		Rule:        "as C06, but the first observation of each constellation is drawn anywhere in the constellation week that contains the start time T: the first instant of the week, T itself, 1 ms / up to 3 s before T, the last millisecond of the week, or uniformly - followed by a C06-style continuation across rollovers. Non-trivial: some constellation's first observation is earlier than T. Distinct by hash of the history.",
+		Assumptions: commonAssumptions,
+	},
 	"C08": {
 		QuickBatches: 8, ThoroughBatches: 64, Parallel: 16, Level: "exploration", Floor: 1000,
 		Rule:        "signal cells for GPS, GLONASS, Galileo and BeiDou MSM4/MSM7: whole ms random plus 0/254/255(invalid), and all 0..255 swept with boundary fractions; fractional in {0,1,511,512,1023,random}; fine range / phase / rate in {min(invalid), min+1, -1, 0, 1, max, random}; rough rate in {-8192(invalid), +-8191, 0, +-1, random}; signal ids mostly those with a documented frequency, all 8x32 (constellation, id) pairs swept. Three quarters of the cells are obtained by decoding a one-cell message built by the independent encoder (so the library assigns the wavelength), one quarter by direct construction. Oracle: 200-bit big.Float evaluation of c/1000*(whole+frac/1024+fine*2^-24|2^-29), the same with 2^-29|2^-31 divided by the wavelength, rough+fine/10000 and its negative over the wavelength; relative tolerance 1e-12; wavelength against c/f from a table pinned in the harness; invalid-rough => zero and 'invalid' in the text; invalid-fine => rough alone; MSM4 cell vs the MSM7 cell encoding the same quantity; cases with a negative true value are executed but excluded from the numeric comparison, as the property states. Non-trivial: rough range not 0/0. Distinct by hash of the case.",
